@@ -28,9 +28,11 @@ import (
 	"time"
 
 	"github.com/openbao/openbao/sdk/v2/framework"
+	"github.com/openbao/openbao/sdk/v2/helper/locksutil"
 	"github.com/openbao/openbao/sdk/v2/logical"
 	"github.com/openbao/openbao/sdk/v2/physical"
 	"github.com/openbao/openbao/v2/internal/helper/namespace"
+	"github.com/openbao/openbao/v2/internal/vault/routing"
 	"github.com/openbao/openbao/v2/internal/zzverif/vh"
 )
 
@@ -162,6 +164,7 @@ type c05bLease struct {
 	secret  string    // backend secret id ("" for token leases)
 	token   string    // client token (token leases)
 	issue   time.Time // when the harness saw it created (moved back by `age`): NOT read back from the stored entry
+	ns      int       // 0 = root namespace, 1 / 2 = the sealable namespaces nsa/ nsb/
 }
 
 type c05bCase struct {
@@ -173,11 +176,18 @@ type c05bCase struct {
 	leases []*c05bLease
 	byID   map[string]*c05bLease
 	bySec  map[string]*c05bLease
+	// namespaces (only in namespace cases): index 1, 2
+	nss    []*namespace.Namespace
+	nsKeys map[string][][]byte
+	sealed map[int]bool
+	held   map[int]int        // namespace whose restore is held in flight -> ordinal of the lease whose restore shard is locked
+	unseal map[int]chan error // the unseal goroutine of a held namespace
 }
 
 func c05bNewCase(t *testing.T) *c05bCase {
 	c05bRec.reset()
-	k := &c05bCase{t: t, p: vhNewPhys(t), byID: map[string]*c05bLease{}, bySec: map[string]*c05bLease{}}
+	k := &c05bCase{t: t, p: vhNewPhys(t), byID: map[string]*c05bLease{}, bySec: map[string]*c05bLease{},
+		sealed: map[int]bool{}, held: map[int]int{}, unseal: map[int]chan error{}}
 	k.c, k.keys, k.root = vhNewCore(t, k.p, nil, c05bTweak)
 	if cl, _ := vhReq(k.c, logical.UpdateOperation, "sys/mounts/r5", k.root, map[string]any{"type": "c05brec"}); cl != "ok" {
 		t.Fatal("mount", cl)
@@ -285,8 +295,8 @@ func (k *c05bCase) observe() string {
 	var viol string
 	var keys []string
 	for _, key := range k.p.AllKeys() {
-		if strings.HasPrefix(key, "sys/expire/id/") {
-			keys = append(keys, strings.TrimPrefix(key, "sys/expire/id/"))
+		if id := c05bLeaseIDOfKey(key); id != "" {
+			keys = append(keys, id)
 		}
 	}
 	type ent struct {
@@ -302,7 +312,11 @@ func (k *c05bCase) observe() string {
 		}
 		stored[l.ord] = true
 		flag := ""
-		raw, err := m.leaseView(namespace.RootNamespace).Get(vhRootCtx(), id)
+		var raw *logical.StorageEntry
+		var err error = errors.New("sealed")
+		if !k.sealed[l.ns] {
+			raw, err = m.leaseView(k.nsOf(l.ns)).Get(k.nsCtx(l.ns), id)
+		}
 		if err == nil && raw != nil {
 			if le, err := decodeLeaseEntry(raw.Value); err == nil {
 				if le.RevokeErr != "" {
@@ -347,17 +361,42 @@ func (k *c05bCase) observe() string {
 	}
 	calls := c05bRec.Calls
 	c05bRec.mu.Unlock()
-	// direct predicate: tracked = stored
+	// leases of sealed namespaces and the lease whose restore the harness holds back are legitimately untracked
+	var nsl, heldOrds, sealedNS, marks []int
+	exempt := map[int]bool{}
+	for o := range stored {
+		if k.sealed[k.leases[o].ns] {
+			nsl = append(nsl, o)
+			exempt[o] = true
+		}
+	}
+	for ns, h := range k.held {
+		_ = ns
+		heldOrds = append(heldOrds, h)
+		exempt[h] = true
+	}
+	for ns, is := range k.sealed {
+		if is {
+			sealedNS = append(sealedNS, ns)
+		}
+	}
+	m.restoreLoaded.Range(func(key, _ any) bool {
+		if l := k.byID[key.(string)]; l != nil {
+			marks = append(marks, l.ord)
+		}
+		return true
+	})
+	// direct predicate: tracked = stored, per unsealed namespace
 	if viol == "" {
 		for o := range stored {
-			if !tp[o] && !ti[o] && !tn[o] {
-				viol = fmt.Sprintf("!VIOL:lease %d is in storage but not tracked#C05b:stored-not-tracked", o)
+			if !exempt[o] && !tp[o] && !ti[o] && !tn[o] {
+				viol = fmt.Sprintf("!VIOL:lease %d (namespace %d) is in storage but not tracked#C05b:stored-not-tracked", o, k.leases[o].ns)
 			}
 		}
 		for _, set := range []map[int]bool{tp, ti, tn} {
 			for o := range set {
-				if !stored[o] {
-					viol = fmt.Sprintf("!VIOL:lease %d is tracked but not in storage#C05b:tracked-not-stored", o)
+				if !stored[o] || exempt[o] {
+					viol = fmt.Sprintf("!VIOL:lease %d is tracked but not in storage (or in a sealed namespace)#C05b:tracked-not-stored", o)
 				}
 			}
 		}
@@ -366,7 +405,8 @@ func (k *c05bCase) observe() string {
 	if len(st) > 0 {
 		sts = strings.Join(st, ",")
 	}
-	return fmt.Sprintf("st=%s|pend=%s|irr=%s|non=%s|rev=%s|calls=%d|unk=%d%s", sts, c05bOrds(pend), c05bOrds(irr), c05bOrds(non), c05bOrds(rev), calls, unk, viol)
+	return fmt.Sprintf("st=%s|pend=%s|irr=%s|non=%s|rev=%s|calls=%d|unk=%d|sealed=%s|nsl=%s|held=%s|marks=%s|rm=%d%s", sts, c05bOrds(pend), c05bOrds(irr),
+		c05bOrds(non), c05bOrds(rev), calls, unk, c05bOrds(sealedNS), c05bOrds(nsl), c05bOrds(heldOrds), c05bOrds(marks), m.restoreMode.Load(), viol)
 }
 
 // effMax: the effective maximum lifetime of a lease counted from its issue time (system max 32 days unless the
@@ -404,6 +444,8 @@ func c05bErrClass(resp *logical.Response, cl string) string {
 		return "err:notoken"
 	case strings.Contains(msg, "failed to revoke"):
 		return "err:revoke"
+	case strings.Contains(msg, "sealed"):
+		return "err:sealed"
 	}
 	return cl
 }
@@ -411,18 +453,73 @@ func c05bErrClass(resp *logical.Response, cl string) string {
 // round a TTL to the nearest minute: every configured TTL is a multiple of 60 s and a case lasts a few seconds
 func c05bMin(d time.Duration) int64 { return (int64(d/time.Second) + 30) / 60 * 60 }
 
-// liveOrds: ordinals of the leases currently in storage
+// c05bLeaseIDOfKey: the lease id of a physical key under .../sys/expire/id/ (root namespace: "sys/expire/id/<id>",
+// other namespaces: "namespaces/<uuid>/sys/expire/id/<id>"), "" for other keys.
+func c05bLeaseIDOfKey(key string) string {
+	const mark = "sys/expire/id/"
+	if strings.HasPrefix(key, mark) {
+		return key[len(mark):]
+	}
+	if i := strings.Index(key, "/"+mark); i >= 0 && strings.HasPrefix(key, "namespaces/") {
+		return key[i+1+len(mark):]
+	}
+	return ""
+}
+
+// liveOrds: ordinals of the leases currently in storage (all namespaces)
 func (k *c05bCase) liveOrds() []int {
 	var out []int
 	for _, key := range k.p.AllKeys() {
-		if strings.HasPrefix(key, "sys/expire/id/") {
-			if l := k.byID[strings.TrimPrefix(key, "sys/expire/id/")]; l != nil {
+		if id := c05bLeaseIDOfKey(key); id != "" {
+			if l := k.byID[id]; l != nil {
 				out = append(out, l.ord)
 			}
 		}
 	}
 	sort.Ints(out)
 	return out
+}
+
+// blockedBy: leases a and b share a restore shard lock
+func (k *c05bCase) blockedBy(a, b int) bool {
+	m := k.c.expiration
+	return locksutil.LockForKey(m.restoreLocks, k.leases[a].leaseID) == locksutil.LockForKey(m.restoreLocks, k.leases[b].leaseID)
+}
+
+// sharesShard: some other known lease has the same restore shard lock as o
+func (k *c05bCase) sharesShard(o int) bool {
+	for _, l := range k.leases {
+		if l.ord != o && k.blockedBy(o, l.ord) {
+			return true
+		}
+	}
+	return false
+}
+
+func (k *c05bCase) nsOf(i int) *namespace.Namespace {
+	if i == 0 {
+		return namespace.RootNamespace
+	}
+	return k.nss[i]
+}
+
+func (k *c05bCase) nsCtx(i int) context.Context {
+	return namespace.ContextWithNamespace(context.Background(), k.nsOf(i))
+}
+
+// usable: the lease can be the target of an op right now without blocking: its namespace is not sealed and its restore
+// shard is not the one the harness holds locked
+func (k *c05bCase) blocked(o int) bool {
+	if o >= len(k.leases) {
+		return false
+	}
+	m := k.c.expiration
+	for _, h := range k.held {
+		if locksutil.LockForKey(m.restoreLocks, k.leases[h].leaseID) == locksutil.LockForKey(m.restoreLocks, k.leases[o].leaseID) {
+			return true
+		}
+	}
+	return false
 }
 
 // age: rewrite the stored lease as if it had been issued d earlier (issue and expiry move back), then updatePending —
@@ -432,7 +529,11 @@ func (k *c05bCase) age(leaseID string, d time.Duration) string {
 	lock := m.lockForLeaseID(leaseID)
 	lock.Lock()
 	defer lock.Unlock()
-	le, err := m.loadEntry(vhRootCtx(), leaseID)
+	ctx := vhRootCtx()
+	if l := k.byID[leaseID]; l != nil {
+		ctx = k.nsCtx(l.ns)
+	}
+	le, err := m.loadEntry(ctx, leaseID)
 	if err != nil {
 		return "err:load"
 	}
@@ -443,7 +544,7 @@ func (k *c05bCase) age(leaseID string, d time.Duration) string {
 	if !le.ExpireTime.IsZero() {
 		le.ExpireTime = le.ExpireTime.Add(-d)
 	}
-	if err := m.persistEntry(vhRootCtx(), le); err != nil {
+	if err := m.persistEntry(ctx, le); err != nil {
 		return "err:persist"
 	}
 	m.updatePending(le)
@@ -613,6 +714,119 @@ func (x *c05bRun) age(o int, secs int64) {
 	x.emit(res, "age", vh.I(int64(o)), vh.I(secs), vh.I(x.now))
 }
 
+// ---- namespaces: two sealable namespaces nsa/ (1) and nsb/ (2), each with the recording backend at r5/
+
+func (x *c05bRun) withNamespaces() {
+	k := x.k
+	nsA := &namespace.Namespace{Path: "nsa/"}
+	nsB := &namespace.Namespace{Path: "nsb/"}
+	k.nsKeys = TestCoreCreateUnsealedNamespaces(k.t, k.c, nsA, nsB)
+	k.nss = []*namespace.Namespace{nil, nsA, nsB}
+	for i := 1; i <= 2; i++ {
+		if err := k.c.mount(k.nsCtx(i), &routing.MountEntry{Table: routing.MountTableType, Path: "r5/", Type: "c05brec"}); err != nil {
+			k.t.Fatalf("mount in namespace %d: %v", i, err)
+		}
+	}
+	for i := 0; i < 2000 && k.c.expiration.inRestoreMode(); i++ {
+		time.Sleep(5 * time.Millisecond)
+	}
+}
+
+// nsReg: a secret lease issued in namespace ns to the root token
+func (x *c05bRun) nsReg(ns int, ttl, max int64, ren bool) {
+	x.now++
+	k := x.k
+	req := &logical.Request{Operation: logical.ReadOperation, Path: fmt.Sprintf("r5/lease/n%d", x.now), ClientToken: k.root,
+		Data: map[string]any{"ttl": int(ttl), "max": int(max), "renewable": ren}}
+	req.SetTokenEntry(nil)
+	resp, err := k.c.HandleRequest(k.nsCtx(ns), req)
+	cl := vhClass(resp, err)
+	res := c05bErrClass(resp, cl)
+	if err != nil && strings.Contains(err.Error(), "sealed") {
+		res = "err:sealed"
+	}
+	if cl == "ok" && resp != nil && resp.Secret != nil {
+		id, _ := resp.Data["secret"].(string)
+		l := k.add(resp.Secret.LeaseID, strings.TrimPrefix(id, "canary-"), "")
+		l.ns = ns
+		res = fmt.Sprintf("ok:%d:%d", l.ord, c05bMin(resp.Secret.TTL))
+	}
+	x.emit(res, "nsreg", vh.I(int64(ns)), vh.I(ttl), vh.I(max), c05bB(ren), vh.I(x.now))
+}
+
+func (x *c05bRun) seal(ns int) {
+	k := x.k
+	res := "ok"
+	if err := k.c.namespaceStore.SealNamespace(vhRootCtx(), strings.TrimSuffix(k.nss[ns].Path, "/")); err != nil {
+		res = "err:seal"
+	} else {
+		k.sealed[ns] = true
+	}
+	x.emit(res, "seal", vh.I(int64(ns)))
+}
+
+func (k *c05bCase) doUnseal(ns int) error {
+	for _, key := range k.nsKeys[k.nss[ns].Path] {
+		done, err := TestNamespaceUnseal(k.c, k.nss[ns], key)
+		if err != nil {
+			return err
+		}
+		if done {
+			break
+		}
+	}
+	return nil
+}
+
+func (x *c05bRun) unsealNS(ns int) {
+	x.now++
+	k := x.k
+	res := "ok"
+	if err := k.doUnseal(ns); err != nil {
+		res = "err:unseal"
+	} else {
+		k.sealed[ns] = false
+	}
+	x.emit(res, "unseal", vh.I(int64(ns)), vh.I(x.now))
+}
+
+// unsealBegin: unseal namespace ns while the restore shard lock of its lease h is held: the namespace's lease restore
+// stays in flight (restore mode on, every other lease of ns restored, h not yet) until unsealEnd.
+func (x *c05bRun) unsealBegin(ns, h int) {
+	x.now++
+	k := x.k
+	m := k.c.expiration
+	m.lockLease(k.leases[h].leaseID)
+	k.held[ns] = h
+	ch := make(chan error, 1)
+	k.unseal[ns] = ch
+	go func() { ch <- k.doUnseal(ns) }()
+	// wait until the restore has handled every other lease of the namespace (it then waits for h's shard)
+	deadline := time.Now().Add(5 * time.Second)
+	for time.Now().Before(deadline) {
+		if m.inRestoreMode() && !k.c.NamespaceSealed(k.nss[ns]) {
+			break
+		}
+		time.Sleep(2 * time.Millisecond)
+	}
+	k.sealed[ns] = false
+	x.emit("ok", "unsealbegin", vh.I(int64(ns)), vh.I(int64(h)), vh.I(x.now))
+}
+
+func (x *c05bRun) unsealEnd(ns int) {
+	x.now++
+	k := x.k
+	res := "ok"
+	h := k.held[ns]
+	k.c.expiration.unlockLease(k.leases[h].leaseID)
+	if err := <-k.unseal[ns]; err != nil {
+		res = "err:unseal"
+	}
+	delete(k.held, ns)
+	delete(k.unseal, ns)
+	x.emit(res, "unsealend", vh.I(int64(ns)), vh.I(x.now))
+}
+
 func (x *c05bRun) restart(kind int) {
 	x.now++
 	x.emit(x.k.restart(kind), "restart", vh.I(int64(kind)), vh.I(x.now))
@@ -711,7 +925,7 @@ func TestVerifC05b(t *testing.T) {
 	out := vh.Open()
 	defer out.Close()
 	rng := vh.NewRand(vh.Seed())
-	ncases, maxops := 30, 16
+	ncases, maxops := 24, 16
 	if vh.Thorough() {
 		ncases, maxops = 160, 22
 	}
@@ -723,6 +937,136 @@ func TestVerifC05b(t *testing.T) {
 		d(x)
 		x.k.crashProbe(out, rng.Fork(uint64(1000+di)), x.now+1)
 		_ = x.k.c.Shutdown()
+	}
+	// ---- namespace histories: seal / unseal of two sealable namespaces, restores held in flight while other leases are used
+	nsCases := 6
+	if vh.Thorough() {
+		nsCases = 40
+	}
+	for ci := -1; ci < nsCases; ci++ {
+		r := rng.Fork(uint64(5000 + ci))
+		x := c05bStart(t, out)
+		x.withNamespaces()
+		k := x.k
+		if ci < 0 {
+			// directed: a lease of B is renewed while A's restore is in flight; later B is sealed and unsealed
+			x.nsReg(1, 3600, 7200, true)
+			x.nsReg(2, 3600, 7200, true)
+			for k.blockedBy(1, 2) {
+				x.nsReg(2, 3600, 7200, true)
+			}
+			l := len(k.leases) - 1
+			x.seal(1)
+			x.unsealBegin(1, 1)
+			x.renew(l, 60)
+			x.unsealEnd(1)
+			x.seal(2)
+			x.unsealNS(2)
+			x.renew(l, 60)
+			x.revoke(l, false)
+			_ = k.c.Shutdown()
+			continue
+		}
+		nops := 10 + r.Intn(maxops)
+		for oi := 0; oi < nops; oi++ {
+			live := k.liveOrds()
+			// a stored lease that can be touched now (namespace unsealed, restore shard free)
+			pickFree := func() int {
+				var xs []int
+				for _, o := range live {
+					if !k.sealed[k.leases[o].ns] && !k.blocked(o) {
+						xs = append(xs, o)
+					}
+				}
+				if len(xs) == 0 {
+					return -1
+				}
+				return xs[r.Intn(len(xs))]
+			}
+			var sealedNS, openNS, heldNS []int
+			for ns := 1; ns <= 2; ns++ {
+				_, h := k.held[ns]
+				switch {
+				case h:
+					heldNS = append(heldNS, ns)
+				case k.sealed[ns]:
+					sealedNS = append(sealedNS, ns)
+				default:
+					openNS = append(openNS, ns)
+				}
+			}
+			// while a restore is held in flight, leases are loaded more often (that is when marks appear)
+			if len(heldNS) > 0 && r.Chance(35) {
+				if o := pickFree(); o >= 0 {
+					x.renew(o, r.PickInt(incs))
+					continue
+				}
+			}
+			switch w := r.Intn(100); {
+			case w < 22:
+				ns := r.Intn(3)
+				if ns == 0 {
+					x.reg(0, r.PickInt(ttls), r.PickInt(maxs), !r.Chance(20))
+				} else if !k.sealed[ns] {
+					x.nsReg(ns, r.PickInt(ttls), r.PickInt(maxs), !r.Chance(20))
+				} else {
+					x.nsReg(ns, 3600, 0, true) // refused: sealed
+				}
+			case w < 44:
+				if o := pickFree(); o >= 0 {
+					x.renew(o, r.PickInt(incs))
+				}
+			case w < 54:
+				if o := pickFree(); o >= 0 && k.leases[o].token == "" {
+					x.revoke(o, r.Chance(40))
+				}
+			case w < 60:
+				if o := pickFree(); o >= 0 {
+					x.age(o, r.PickInt([]int64{600, 1800, 3000}))
+				}
+			case w < 72:
+				if len(openNS) > 0 {
+					x.seal(openNS[r.Intn(len(openNS))])
+				}
+			case w < 80:
+				if len(sealedNS) > 0 {
+					x.unsealNS(sealedNS[r.Intn(len(sealedNS))])
+				}
+			case w < 92:
+				// unseal with the restore held on one of the namespace's leases whose shard no other lease shares
+				if len(sealedNS) > 0 {
+					ns := sealedNS[r.Intn(len(sealedNS))]
+					h := -1
+					for _, o := range live {
+						if k.leases[o].ns == ns && !k.sharesShard(o) {
+							h = o
+						}
+					}
+					if h >= 0 {
+						x.unsealBegin(ns, h)
+					} else {
+						x.unsealNS(ns)
+					}
+				}
+			case w < 97:
+				if len(heldNS) > 0 {
+					x.unsealEnd(heldNS[r.Intn(len(heldNS))])
+				}
+			default:
+				mode := r.Pick([]string{"none", "always", "transient"})
+				n := 0
+				if mode == "transient" {
+					n = 1 + r.Intn(3)
+				}
+				x.setFail(mode, n)
+			}
+		}
+		for ns := 1; ns <= 2; ns++ {
+			if _, h := k.held[ns]; h {
+				x.unsealEnd(ns)
+			}
+		}
+		_ = k.c.Shutdown()
 	}
 	for ci := 0; ci < ncases; ci++ {
 		r := rng.Fork(uint64(ci))
